@@ -362,7 +362,7 @@ def thread_env(ctx, counts):
     import json
     fails, ref = [], None
     for n in counts:
-        env = dict(os.environ, NUMBA_NUM_THREADS=str(n), OMP_NUM_THREADS=str(n), PYTHONPATH=REPO)
+        env = dict(os.environ, NUMBA_NUM_THREADS=str(n), OMP_NUM_THREADS=str(n), PYTHONPATH=REPO + os.pathsep + os.environ.get("PYTHONPATH", ""))
         p = subprocess.run([sys.executable, "-c", THREAD_SCRIPT], capture_output=True, text=True, env=env, cwd=REPO, timeout=1200)
         if p.returncode != 0:
             fails.append((f"threads-raise:{n}", f"run with {n} threads failed: {p.stderr[-200:]}", {"threads": n})); continue
